@@ -187,13 +187,14 @@ def run(ctx: Ctx):
     kinds: list[str] = []
     roles: list[list[str]] = []
     failed = {"riscv": 0, "test": 0}
-    failed["riscv-loops"] = 0
+    failed["riscv-loops"] = failed["x86"] = 0
     n = 4000 if ctx.quick else 60000
     n_loops = 1500 if ctx.quick else 25000
-    for k in range(n + n_loops):
-        which = "riscv-loops" if k >= n else ("riscv" if k % 2 == 0 else "test")
+    n_x86 = 1500 if ctx.quick else 25000
+    for k in range(n + n_loops + n_x86):
+        which = "x86" if k >= n + n_loops else "riscv-loops" if k >= n else ("riscv" if k % 2 == 0 else "test")
         try:
-            c = riscv_loop_case(rng) if which == "riscv-loops" else riscv_zero_aware(rng) if which == "riscv" else test_case(rng)
+            c = x86_case(rng) if which == "x86" else riscv_loop_case(rng) if which == "riscv-loops" else riscv_zero_aware(rng) if which == "riscv" else test_case(rng)
         except AssertionError as e:   # the allocator's own internal assertion: a reported failure, kept as divergence
             ctx.diverge("allocator assertion", which=which, error=str(e)[:100])
             continue
@@ -219,10 +220,10 @@ def run(ctx: Ctx):
                     {"clause": tail[0], "target": kinds[idx], "clobbered": read_role, "case": c}, clause=tail[0])
     ctx.coverage.update({"evaluations": len(cases), "distinct_nontrivial": len({repr(c) for c in cases}), "reported_failures": failed, "judge_states": res.states,
                          "rule": "seeded single-block functions: RISC-V li/add/sub/mul/mv with pre-allocated arguments/results, zero constants, pools of 1-6 registers "
-                                 "(+infinite); riscv_scf.for loops (0-2 carried variables, nesting depth 2) unrolled twice; test.allocatable with in/out/inout groups (inout = last use), 2-register pool (+infinite); distinct = distinct allocated blocks"})
+                                 "(+infinite); riscv_scf.for loops (0-2 carried variables, nesting depth 2) unrolled twice; x86 two-address single-block functions; test.allocatable with in/out/inout groups (inout = last use), 2-register pool (+infinite); distinct = distinct allocated blocks"})
     ctx.sample(cases[0])
     ctx.assumptions += ["an inout operand is used for the last time by that operation (the allocator's documented precondition)",
-                        "loops are judged on two unrolled iterations; initial values of carried variables are dedicated copies as convert-scf-to-riscv-scf produces them; the x86 allocator is not generated yet"]
+                        "loops are judged on two unrolled iterations; initial values of carried variables are dedicated copies as convert-scf-to-riscv-scf produces them; in/out operands of x86 two-address operations are dedicated copies as convert-arith-to-x86 produces them"]
 
 
 def riscv_zero_aware(rng):
@@ -517,3 +518,81 @@ def first_clobbered_read(c: dict[str, Any]) -> tuple[int, int, int] | None:
                 return i, v, rf.get(r, 0)
         write(o["outs"] + [p[1] for p in o["inouts"]])
     return None
+
+
+# ------------------------------------------------------------------ x86 allocator (two-address ops in the shape the lowering produces)
+def x86_case(rng) -> dict[str, Any] | None:
+    """A single-block x86_func function as convert-arith-to-x86 produces it: arguments copied out of rdi/rsi, two-address
+    operations (rs.add/sub/imul/and/xor, r.neg/inc, ri.add) whose in/out operand is a dedicated copy, three-address
+    dsi.imul, immediates, the result copied to rax; allocated by the real X86RegisterAllocator with the default or a
+    small register pool."""
+    from xdsl.backend.x86.register_allocation import X86RegisterAllocator
+    from xdsl.backend.x86.register_stack import X86RegisterStack
+    from xdsl.dialects import x86, x86_func
+    from xdsl.dialects.x86 import registers as R
+    from xdsl.ir import Block, Region
+    from xdsl.utils.exceptions import DiagnosticException
+
+    U = R.Reg64Type.unallocated()
+    nargs = rng.randint(1, 2)
+    argregs = [R.RDI, R.RSI][:nargs] + [R.RSP]
+    block = Block(arg_types=argregs)
+    ops: list[Any] = []
+    vals: list[Any] = []
+    for a in block.args[:nargs]:
+        op = x86.DS_MovOp(a, destination=U)
+        ops.append(op)
+        vals.append(op.destination)
+
+    def copy_of(v):
+        op = x86.DS_MovOp(v, destination=U)
+        ops.append(op)
+        return op.destination
+
+    for _ in range(rng.randint(2, 10)):
+        k = rng.choice(["imm", "add", "sub", "imul", "and", "xor", "neg", "inc", "addi", "imul3", "mov"])
+        if k == "imm":
+            op = x86.DI_MovOp(rng.choice([1, 5, -3, 100]), destination=U)
+            res = op.destination
+        elif k == "mov":
+            op = x86.DS_MovOp(rng.choice(vals), destination=U)
+            res = op.destination
+        elif k == "imul3":
+            op = x86.DSI_ImulOp(rng.choice(vals), rng.choice([2, 3, 7]), destination=U)
+            res = op.destination
+        elif k in ("neg", "inc"):
+            op = {"neg": x86.R_NegOp, "inc": x86.R_IncOp}[k](copy_of(rng.choice(vals)), register_out=U)
+            res = op.register_out
+        elif k == "addi":
+            op = x86.RI_AddOp(copy_of(rng.choice(vals)), rng.choice([1, 8, -4]), register_out=U)
+            res = op.register_out
+        else:
+            cls = {"add": x86.RS_AddOp, "sub": x86.RS_SubOp, "imul": x86.RS_ImulOp, "and": x86.RS_AndOp, "xor": x86.RS_XorOp}[k]
+            src = rng.choice(vals)
+            op = cls(copy_of(rng.choice(vals)), src, register_out=U)
+            res = op.register_out
+        ops.append(op)
+        vals.append(res)
+    ops.append(x86.DS_MovOp(rng.choice(vals), destination=R.RAX))
+    ops.append(x86_func.RetOp())
+    block.add_ops(ops)
+    func = x86_func.FuncOp("f", Region(block), (argregs, [R.RAX]))
+    try:
+        func.verify()
+    except Exception:  # noqa: BLE001
+        return None
+    pool = None
+    pool_names: list[str]
+    if rng.random() < 0.6:
+        pool = rng.sample([R.RCX, R.RDX, R.R8, R.R9, R.R10, R.R11, R.RBX], rng.choice([2, 3, 4, 6]))
+        pool_names = [r.register_name.data for r in pool]
+        stack = X86RegisterStack.get(allocatable_registers=pool, allow_infinite=rng.random() < 0.2)
+    else:
+        stack = X86RegisterStack.get()
+        pool_names = [r.register_name.data for r in X86RegisterStack.DEFAULT_ALLOCATABLE_REGISTERS]
+    before = snapshot(block)
+    try:
+        X86RegisterAllocator(stack).allocate_func(func)
+    except (DiagnosticException, NotImplementedError):
+        return {"failed": True}
+    return finish_case(block, before, pool_names, set(), "inf_")
